@@ -29,6 +29,7 @@ type c05Case struct {
 	To     int    `json:"to,omitempty"`
 	Calls  int    `json:"calls,omitempty"`
 	Sample bool   `json:"sampled,omitempty"`
+	Topo   string `json:"topology,omitempty"`
 }
 
 var c05PermCache = map[string][][]int{}
@@ -91,7 +92,12 @@ func c05List(tier string) []c05Case {
 	}
 	nids := tierN(tier, 8, 80)
 	for i := 0; i < nids; i++ {
-		out = append(out, c05Case{Family: "ids", Calls: 1280})
+		cs := c05Case{Family: "ids", Calls: 1280}
+		if i%4 == 3 {
+			// through the proxy: bursts of 12 (below its per-destination buffer)
+			cs.Topo, cs.Calls = "proxy", 360
+		}
+		out = append(out, cs)
 	}
 	for i := 0; i < tierN(tier, 6, 48); i++ {
 		out = append(out, c05Case{Family: "websocket", Calls: i})
@@ -379,18 +385,22 @@ func c05IDs(tier string, seed int64, idx int, c c05Case, res *core.Result) {
 	h.Jitter = uint64(seed)*3 + uint64(idx) + 1
 	h.Install()
 	setGMP([]int{2, 4, 16}[idx%3])
-	b := bed.New(bed.Opts{Cap: 8})
+	b := bed.New(bed.Opts{Cap: 8, Topology: c.Topo})
 	cc := b.Conns[0]
 	total := 0
 	faultsInjected, callsFailed := 0, 0
 	endA := b.Links[0].A
+	burst := 64
+	if c.Topo == "proxy" {
+		burst = 12
+	}
 	rf := rng(seed, idx, "c05faults")
 	for total < c.Calls {
-		n := 64
+		n := burst
 		var wg sync.WaitGroup
 		start := make(chan struct{})
 		errs := make([]error, n)
-		if idx%2 == 1 {
+		if idx%2 == 1 && c.Topo == "" {
 			// transport write faults in the middle of the burst: the calls they hit fail, and nothing
 			// else may be disturbed (in particular an id must never come back into use)
 			w := endA.Writes()
@@ -467,6 +477,24 @@ func c05IDs(tier string, seed int64, idx int, c c05Case, res *core.Result) {
 			}
 		}
 		total += n
+	}
+	// a transport may report a write as failed although the envelope reached the peer (a context
+	// ending while the frame completes: the shipped websocket and HTTP transports do that). The call
+	// fails; its id is used up all the same, and the reply that still comes back is nobody's.
+	for k := 0; k < 4 && c.Topo == "" && len(res.Violations) == 0 && res.Verdict == core.Held; k++ {
+		endA.DeliverButFailWritesAt(endA.Writes())
+		faultsInjected++
+		tagA, tagB := fmt.Sprintf("id-late-%d-a", k), fmt.Sprintf("id-late-%d-b", k)
+		if _, err := svc.Invoke(context.Background(), cc, tagA, []byte("for-a")); err != nil {
+			callsFailed++
+		}
+		quiet(tier) // the reply to the failed call has come back
+		got, err := svc.Invoke(context.Background(), cc, tagB, []byte("for-b"))
+		if err != nil || string(got) != "for-b" {
+			res.Violate("call-observed-foreign-data", "unary %s, issued after a call whose write was reported failed although it was delivered: got %q err %v", tagB, got, err)
+		}
+		total += 2
+		res.Stat("delivered_but_failed_writes", 1)
 	}
 	// wire: ids pairwise distinct across calls, one tag per id
 	idTag := map[uint64]string{}
@@ -546,13 +574,13 @@ func init() {
 	core.Register(&core.Prop{
 		ID:    "C05",
 		Level: "exploration",
-		Rule:  "(perm) for each configuration of k<=3 (thorough also 4) outstanding calls with per-call scripts of 1 (unary) or 2..6 envelopes, EVERY order-preserving merge (multiset permutation) of the scripts is played on a fresh connection: by a scripted server against a real client (replies, headers, bodies, trailers, distinct statuses per call) and by a scripted client against a real server (requests, opens, bodies, half-closes); each call/handler must observe exactly its own script. (ids) histories of 1280 calls per connection (quick 8, thorough 80 connections), 64 callers released from a barrier per burst, unary and streams mixed: ids on the wire pairwise distinct, one id per call, every call sees only its own echo. (websocket) quick 6 / thorough 48 cases of 2..16 unary calls and 2..8 echo streams at once over the shipped websocket transport on loopback sockets with stalling writes, payloads 0..64 KiB: no call or stream sees foreign content (calls that merely fail are counted, not judged here; 30 s wall bound = inconclusive). distinct_nontrivial = interleavings enumerated (all distinct) + id histories.",
+		Rule:  "(perm) for each configuration of k<=3 (thorough also 4) outstanding calls with per-call scripts of 1 (unary) or 2..6 envelopes, EVERY order-preserving merge (multiset permutation) of the scripts is played on a fresh connection: by a scripted server against a real client (replies, headers, bodies, trailers, distinct statuses per call) and by a scripted client against a real server (requests, opens, bodies, half-closes); each call/handler must observe exactly its own script. (ids) histories of 1280 calls per connection (quick 8, thorough 80 connections), 64 callers released from a barrier per burst, unary and streams mixed, every 4th history through the proxy in bursts of 12, and ending with calls whose write is reported failed although it was delivered: ids on the wire pairwise distinct, one id per call, every call sees only its own echo. (websocket) quick 6 / thorough 48 cases of 2..16 unary calls and 2..8 echo streams at once over the shipped websocket transport on loopback sockets with stalling writes, payloads 0..64 KiB: no call or stream sees foreign content (calls that merely fail are counted, not judged here; 30 s wall bound = inconclusive). distinct_nontrivial = interleavings enumerated (all distinct) + id histories.",
 		Plan:  func(tier string, seed int64) int { return len(c05List(tier)) },
 		Run:   c05Run,
 		Exhaustive: func(string) bool { return true },
 		MaxStats:   []string{"max_ids_on_one_connection"},
 		RequiredStats: func(string) []string {
-			return []string{"interleavings_client-perm", "interleavings_server-perm", "ids_checked", "ws_streams_checked", "ws_unary_calls_checked"}
+			return []string{"interleavings_client-perm", "interleavings_server-perm", "ids_checked", "ws_streams_checked", "ws_unary_calls_checked", "delivered_but_failed_writes"}
 		},
 		Assumptions: []string{"exhaustive = all interleavings of the listed script-length configurations; id histories are sampled schedules"},
 	})
